@@ -1,0 +1,51 @@
+//go:build verif
+
+// Contracts for contract-based deductive verification (govc, /verif).
+// This file contains comments only; it adds no code to the package.
+
+package localstore
+
+//@ # ---- assumed: the shed indexes, seen as functions of index and key ---------------------------
+//@ # An index is identified by its key prefix.  pinStored(x, k): the pin counter the committed
+//@ # database holds under key k of index x, 0 when there is no entry (entries never hold 0).
+//@ # queued(g, x, k): what version g of the write batch will leave under key k of index x:
+//@ # a counter, 0 for a queued delete, -1 while nothing is queued.
+//@ spec func pinStored(x int, k Bytes) int
+//@ spec func queued(g int, x int, k Bytes) int
+//@ ghost batchGen int
+//@ extern func (github.com/gauss-project/aurorafs/pkg/shed.Index).Get
+//@   ensures err == nil ==> out.PinCounter == pinStored(f.prefix.rid, seq(keyFields.Address)) && out.PinCounter >= 1 && out.PinCounter < 18446744073709551615
+//@   ensures errIs(err, driver.ErrNotFound) ==> pinStored(f.prefix.rid, seq(keyFields.Address)) == 0
+//@   ensures err != nil ==> out.PinCounter == 0
+//@   assigns nothing
+//@ extern func (github.com/gauss-project/aurorafs/pkg/shed.Index).Put
+//@   assigns nothing
+//@ extern func (github.com/gauss-project/aurorafs/pkg/shed.Index).PutInBatch
+//@   assigns ghost batchGen
+//@   ensures err == nil ==> queued(batchGen, f.prefix.rid, seq(i.Address)) == i.PinCounter
+//@   ensures err != nil ==> queued(batchGen, f.prefix.rid, seq(i.Address)) == queued(old(batchGen), f.prefix.rid, seq(i.Address))
+//@   ensures forall x int, k Bytes :: !(x == f.prefix.rid && k == seq(i.Address)) ==> queued(batchGen, x, k) == queued(old(batchGen), x, k)
+//@ extern func (github.com/gauss-project/aurorafs/pkg/shed.Index).DeleteInBatch
+//@   assigns ghost batchGen
+//@   ensures err == nil ==> queued(batchGen, f.prefix.rid, seq(keyFields.Address)) == 0
+//@   ensures err != nil ==> queued(batchGen, f.prefix.rid, seq(keyFields.Address)) == queued(old(batchGen), f.prefix.rid, seq(keyFields.Address))
+//@   ensures forall x int, k Bytes :: !(x == f.prefix.rid && k == seq(keyFields.Address)) ==> queued(batchGen, x, k) == queued(old(batchGen), x, k)
+
+//@ # the indexes of one database are different indexes
+//@ spec func indexesDistinct(db *DB) bool = db.pinIndex.prefix.rid != db.gcIndex.prefix.rid && db.pinIndex.prefix.rid != db.retrievalAccessIndex.prefix.rid && db.pinIndex.prefix.rid != db.retrievalDataIndex.prefix.rid
+
+//@ # pinning a chunk queues its committed pin counter plus one, and nothing else for the pin index
+//@ func (*DB).setPin
+//@   property C15
+//@   requires db != nil && indexesDistinct(db)
+//@   ensures counter-plus-one-queued: err == nil ==> queued(batchGen, db.pinIndex.prefix.rid, seq(item.Address)) == pinStored(db.pinIndex.prefix.rid, seq(item.Address)) + 1
+//@   ensures other-chunks-keep-their-counter: forall k Bytes :: k != seq(item.Address) ==> queued(batchGen, db.pinIndex.prefix.rid, k) == queued(old(batchGen), db.pinIndex.prefix.rid, k)
+
+//@ # unpinning queues the committed counter minus one (the entry's removal when that is zero) and fails
+//@ # for a chunk that is not pinned
+//@ func (*DB).setUnpin
+//@   property C15
+//@   requires db != nil && indexesDistinct(db) && now != nil
+//@   ensures counter-minus-one-queued: err == nil ==> pinStored(db.pinIndex.prefix.rid, seq(item.Address)) >= 1 && queued(batchGen, db.pinIndex.prefix.rid, seq(item.Address)) == pinStored(db.pinIndex.prefix.rid, seq(item.Address)) - 1
+//@   ensures unpinned-chunk-is-an-error: pinStored(db.pinIndex.prefix.rid, seq(item.Address)) == 0 ==> err != nil && queued(batchGen, db.pinIndex.prefix.rid, seq(item.Address)) == queued(old(batchGen), db.pinIndex.prefix.rid, seq(item.Address))
+//@   ensures other-chunks-keep-their-counter: forall k Bytes :: k != seq(item.Address) ==> queued(batchGen, db.pinIndex.prefix.rid, k) == queued(old(batchGen), db.pinIndex.prefix.rid, k)
